@@ -1564,7 +1564,7 @@ bool SGXMLScanner::scanStartTag(bool& gotData)
     fElemStack.setCurrentScope(currentScope);
 
     // Set element next state
-    if (elemDepth >= fElemStateSize) {
+    while (elemDepth >= fElemStateSize) {
         resizeElemState();
     }
 
